@@ -252,8 +252,17 @@ func (w *World) Close() {
 	// no target left: retry goroutines stop re-queueing their target (a worker's
 	// select between ctx.Done and the queue is random once both are ready)
 	w.EX.UpdateTargets(map[string][]*discovery.SDTargets{})
-	for i := 0; i < 4; i++ {
-		for _, p := range w.Net.Pending() {
+	// a worker whose select sees both ctx.Done and a queued target picks at random: keep
+	// failing whatever still reaches the transport until nothing has arrived for a while
+	quiet := 0
+	for i := 0; i < 60 && quiet < 3; i++ {
+		pend := w.Net.Pending()
+		if len(pend) == 0 {
+			quiet++
+		} else {
+			quiet = 0
+		}
+		for _, p := range pend {
 			w.Net.Release(p, "connect", nil)
 		}
 		sched.Sleep(12 * time.Second) // retry sleeps and scrape time-outs on the fake clock
